@@ -450,12 +450,12 @@ Qed.
 Lemma extract_In rematch text hits t :
   In t (extract rematch text hits) <->
   exists s e a b, In (h_idx t, (s, e)) (translate text hits) /\
-    rematch (h_idx t) text s e = Some (a, b) /\
+    rematch (h_idx t) text s = Some (a, b) /\
     h_start t = a /\ h_end t = b /\ h_data t = slice text a b.
 Proof.
   unfold extract. rewrite in_flat_map. split.
   - intros ([idx [s e]] & Hin & H).
-    destruct (rematch idx text s e) as [[a b]|] eqn:E; [|destruct H].
+    destruct (rematch idx text s) as [[a b]|] eqn:E; [|destruct H].
     destruct H as [<-|[]]. cbn. exists s, e, a, b. auto.
   - intros (s & e & a & b & Hin & E & H1 & H2 & H3).
     exists (h_idx t, (s, e)). split; [exact Hin|]. rewrite E. left.
@@ -465,24 +465,24 @@ Qed.
 (* every reported token indexes its own text, whatever Hyperscan reported *)
 Theorem extract_wf : forall rematch text hits t, valid_text text ->
   Forall (fun o => (o <= length (utf8 text))%nat) (hit_offsets hits) ->
-  (forall idx s e a b, rematch idx text s e = Some (a, b) -> (a <= b <= e)%nat) ->
+  (forall idx s a b, rematch idx text s = Some (a, b) -> (a <= b <= length text)%nat) ->
   In t (extract rematch text hits) ->
   (h_start t <= h_end t <= length text)%nat /\ h_data t = slice text (h_start t) (h_end t).
 Proof.
   intros rematch text hits t Hv Hf Hr Hin.
   apply extract_In in Hin. destruct Hin as (s & e & a & b & Hin & E & H1 & H2 & H3).
   apply (translate_spec text hits _ _ _ Hv Hf) in Hin. destruct Hin as (Hs & He & _).
-  pose proof (Hr _ _ _ _ _ E) as Hab.
+  pose proof (Hr _ _ _ _ E) as Hab.
   rewrite H1, H2, H3. split; [lia|reflexivity].
 Qed.
 
 (* every reported token comes from a hit and from a successful in-place re-match of that extractor's
-   pattern between the hit's character offsets *)
+   pattern at the hit's start character offset *)
 Theorem extract_genuine : forall rematch text hits t, valid_text text ->
   Forall (fun o => (o <= length (utf8 text))%nat) (hit_offsets hits) ->
   In t (extract rematch text hits) ->
   exists s e, In (h_idx t, (bpos text s, bpos text e)) hits /\ (s <= length text)%nat /\ (e <= length text)%nat /\
-    rematch (h_idx t) text s e = Some (h_start t, h_end t).
+    rematch (h_idx t) text s = Some (h_start t, h_end t).
 Proof.
   intros rematch text hits t Hv Hf Hin.
   apply extract_In in Hin. destruct Hin as (s & e & a & b & Hin & E & H1 & H2 & H3).
